@@ -103,6 +103,17 @@ def templates():
                                         [("val", [m("mi", lit(1)), m("mi", lit(2))], ("block", [m("mi", lit(100))])),
                                          ("val", [m("mi", lit(3)), m("mi", lit(3)), m("mi", lit(4))], ("block", [m("mi", lit(200))])),
                                          ("ty", "y", INT, ("block", [m("mi", ("bin", "add", V("y"), lit(300)))]))])), fin(V("r"))])
+        # match candidates mixing logged calls with bare constants (a constant candidate may not be
+        # tried before a call that stands to its left, whether or not the constants are folded)
+        for scrut in (1, 2, 3, 4, 9):
+            for shape in (("m1", "c3"), ("c1", "m2", "c3"), ("m1", "m2", "c3", "m4"), ("c9", "m3"), ("m1", "c2")):
+                k[0] = 0
+                cands = [(m("mi", lit(int(c[1:]))) if c[0] == "m" else I(int(c[1:]))) for c in shape]
+                T.append(P + [("set", "kc", I(3)),
+                              ("set", "r", ("match", m("mi", lit(scrut)),
+                                            [("val", cands, ("block", [m("mi", lit(100))])),
+                                             ("val", [V("kc"), m("mi", lit(4))], ("block", [m("mi", lit(200))])),
+                                             ("default", ("block", [m("mi", lit(300))]))])), fin(V("r"))])
         # map / filter callbacks run lazily, once per element, in order
         k[0] = 0
         T.append(P + [("set", "it", ("bin", "map", ("post", "iter", ("array", [m("mi", lit(1)), m("mi", lit(2))])),
